@@ -30,7 +30,14 @@ site: http://bugseng.com/products/ppl/ . */
 namespace PPL = Parma_Polyhedra_Library;
 
 PPL::C_Polyhedron::C_Polyhedron(const NNC_Polyhedron& y, Complexity_Class)
-  : Polyhedron(NECESSARILY_CLOSED, y.space_dimension(), UNIVERSE) {
+  // Note: DO check for emptiness here, as relaxing the strict inequalities
+  // of an unsatisfiable constraint system may make it satisfiable, whereas
+  // the closure of an empty polyhedron is empty.
+  : Polyhedron(NECESSARILY_CLOSED, y.space_dimension(),
+               y.is_empty() ? EMPTY : UNIVERSE) {
+  if (y.is_empty()) {
+    return;
+  }
   const Constraint_System& cs = y.constraints();
   for (Constraint_System::const_iterator i = cs.begin(),
          cs_end = cs.end(); i != cs_end; ++i) {
